@@ -64,6 +64,8 @@ func TestVerif_C16(t *testing.T) {
 		normalKeepsAll := rng.Bool()
 		compress := rng.Bool()
 		waitUpstreamBeforeRelief := rng.Bool()
+		// SamplingRate after a reload that arrives while relief is active (before the bursts)
+		rate2 := verifkit.Pick(rng, uint64(1), 2, 3, 5)
 		// Fixed strata so that every tier has the "keep everything under stress,
 		// normal sampler would drop" combination: with SamplingRate 1 (or 0, which
 		// StressRelief normalises to 1) every trace first seen under stress is kept,
@@ -118,6 +120,7 @@ func TestVerif_C16(t *testing.T) {
 			key     string
 			dataset string
 			ids     [4][]string // span ids per phase
+			rate2   bool        // first seen after the SamplingRate was changed by a reload
 		}
 		var traces []*traceInfo
 		now := time.Now().UTC().Truncate(time.Millisecond)
@@ -232,7 +235,31 @@ func TestVerif_C16(t *testing.T) {
 			t.Fatalf("harness: %v", err)
 		}
 		for phase := 1; phase <= 2; phase++ {
-			if f := postPhase(phase); f != "" {
+			// config reloads that resize the sample caches keep arriving while the stressed
+			// spans (whose decisions are being recorded in those caches) are posted
+			stopReloads := make(chan struct{})
+			reloadsDone := make(chan struct{})
+			go func() {
+				defer close(reloadsDone)
+				if lru {
+					return
+				}
+				for k := 0; ; k++ {
+					select {
+					case <-stopReloads:
+						return
+					default:
+					}
+					for n := range cl.Nodes {
+						cl.ReloadConfig(n, func(cfg *config.MockConfig) { cfg.SampleCache.KeptSize = uint(2000 + k%7) })
+					}
+					time.Sleep(300 * time.Microsecond)
+				}
+			}()
+			f := postPhase(phase)
+			close(stopReloads)
+			<-reloadsDone
+			if f != "" {
 				run.Inconclusive("a batch was not accepted: " + f)
 				return
 			}
@@ -293,6 +320,11 @@ func TestVerif_C16(t *testing.T) {
 		// the first spans this node ever sends to a brand-new dataset
 		stuckPeer := int64(0)
 		if !lru {
+			// a reload changes StressRelief.SamplingRate while relief stays active: traces
+			// first seen from now on are decided with the new rate
+			if err := cl.SetStress("always", rate2); err != nil {
+				t.Fatalf("harness: %v", err)
+			}
 			rounds, k := 12, 8
 			var burst []*traceInfo
 			for r := 0; r < rounds; r++ {
@@ -309,7 +341,7 @@ func TestVerif_C16(t *testing.T) {
 				base := cl.Counter(node, "incoming_router_batch")
 				var helds []*e2HeldRequest
 				for g := 0; g < k; g++ {
-					tr := &traceInfo{id: fmt.Sprintf("c16-%d-burst%d-%d-%s", ci, r, g, rng.Hex(8)), key: key, dataset: ds}
+					tr := &traceInfo{id: fmt.Sprintf("c16-%d-burst%d-%d-%s", ci, r, g, rng.Hex(8)), key: key, dataset: ds, rate2: true}
 					id := tr.id + "/b"
 					sp := e2Span{ID: id, TraceID: tr.id, Time: now, Fields: map[string]any{"name": "burst"}}
 					spans[id] = &c16Span{span: sp, entry: node, phase: 2, key: key, dataset: ds, manual: true}
@@ -357,7 +389,7 @@ func TestVerif_C16(t *testing.T) {
 				start := make(chan struct{})
 				var wg sync.WaitGroup
 				for g := 0; g < k; g++ {
-					tr := &traceInfo{id: fmt.Sprintf("c16-%d-direct%d-%d-%s", ci, r, g, rng.Hex(8)), key: key, dataset: ds}
+					tr := &traceInfo{id: fmt.Sprintf("c16-%d-direct%d-%d-%s", ci, r, g, rng.Hex(8)), key: key, dataset: ds, rate2: true}
 					id := tr.id + "/d"
 					sp := e2Span{ID: id, TraceID: tr.id, Time: now, Fields: map[string]any{"name": "direct"}}
 					spans[id] = &c16Span{span: sp, entry: node, phase: 2, key: key, dataset: ds, manual: true}
@@ -472,6 +504,10 @@ func TestVerif_C16(t *testing.T) {
 
 		// ---- oracle per trace first seen under stress
 		for _, tr := range traces {
+			rate := rate
+			if tr.rate2 {
+				rate = rate2
+			}
 			keep := c16Keep(tr.id, rate)
 			owner, _ := cl.OwnerOf(0, tr.id)
 			onOwner, onOther := false, false
